@@ -43,6 +43,26 @@ def _case(draw, tier):
     big = tier != "quick"
     dev = draw(gen.device(terminals=(2, 4), holes=(0, 2), probes=(0, 2), film_kinds=("box", "box", "ellipse", "union"),
                           size=(3.5, 6.0 if not big else 9.0), screening=scr, min_mel=0.7 if not big else 0.5).filter(gen.valid_device))
+    if draw(st.integers(0, 5)) == 0:
+        # a contact pad drawn generously: it reaches over (part of) a hole next to the contacted edge, so that part of the
+        # hole's rim lies inside the terminal polygon
+        w, h = draw(gen.rf(4.5, 7.0)), draw(gen.rf(3.0, 5.0))
+        a, b = draw(gen.rf(0.45, 0.8)), draw(gen.rf(0.45, 0.8))
+        m, y0 = draw(gen.rf(0.75, 1.1)), draw(gen.rf(-0.3, 0.3))
+        reach = m + a * draw(gen.rf(0.5, 1.5))
+        hy = draw(gen.rf(2.0 * b + 0.4, h - 0.5))
+        dev = dict(lu=dev["lu"], layer=dev["layer"], probes=None,
+                   film=dict(kind="box", w=w, h=h, points=draw(st.integers(36, 60)), center=[0.0, 0.0]),
+                   holes=[dict(kind="ellipse", a=a, b=b, points=draw(st.integers(12, 24)), center=[-w / 2 + m + a, y0])],
+                   terminals=[dict(name="src", width=hy, shape=dict(kind="box", w=2 * reach, h=hy, points=16, center=[-w / 2, y0 + draw(gen.rf(-0.1, 0.1))])),
+                              dict(name="drn", width=0.6 * h, shape=dict(kind="box", w=0.4, h=0.6 * h, points=16, center=[w / 2, 0.05]))],
+                   mesh=dict(max_edge_length=draw(gen.rf(0.45, 0.7)), min_points=None, smooth=0))
+        sx = dev["layer"]["xi"] / 0.5  # template lengths are meant for xi ~ 0.5
+        from .c08 import scale_shape
+        dev["film"], dev["holes"] = scale_shape(dev["film"], sx), [scale_shape(x, sx) for x in dev["holes"]]
+        dev["terminals"] = [dict(name=t["name"], width=t["width"] * sx, shape=scale_shape(t["shape"], sx)) for t in dev["terminals"]]
+        dev["mesh"]["max_edge_length"] *= sx
+        dev["pad_over_hole"] = True
     fu = draw(st.sampled_from(gen.FIELD_UNITS))
     cu = draw(st.sampled_from(gen.CURRENT_UNITS))
     fld = draw(gen.field(dev, fu, kinds=("zero", "constant", "float", "ramp", "gauge_param"), bmax=0.2 if scr else 0.5))
@@ -121,6 +141,8 @@ def check_case(spec):
 
     calls = hist.stage_split()[-1] if hist.calls else []
     nt = len(names)
+    if spec["device"].get("pad_over_hole"):
+        res.label("contact pad reaching over a hole rim")
     res.label(f"terminals={nt}", f"holes={len(spec['device']['holes'])}", "screening" if opts.include_screening else "no screening",
               "adaptive" if opts.adaptive else "fixed dt", f"currents={cur_spec['kind']}{'+shift' if cur_spec.get('shift') else ''}", f"field={spec['field']['kind']}",
               f"units={lu}/{opts.field_units}/{cu}", "thermalisation stage" if spec["options"].get("skip_steps") else "single stage")
